@@ -159,4 +159,12 @@ HARNESSES += [_mk_dec(n, e) for n, e in _T]
 BASE = ["H01-int", "H01-zero", "H01-bool", "H01-text", "H01-date", "H01-dur"]
 TIER_HARNESSES = {"quick": BASE + [f"H01-dec-n{n}-e{e}" for n, e in _Q],
                   "thorough": BASE + [f"H01-dec-n{n}-e{e}" for n, e in _T]}
+# the tile / row-info rebuild on save is part of C01's mechanism: the harnesses are shared with C07
+from specs import c07 as _c07   # noqa: E402
+
+for _h in _c07.HARNESSES:
+    if _h.name in ("H07a", "H07b"):
+        HARNESSES.append(_h)
+        TIER_HARNESSES["quick"].append(_h.name)
+        TIER_HARNESSES["thorough"].append(_h.name)
 PROPERTY = "C01"
